@@ -19,17 +19,23 @@ NM1 == N!NSub(Nn, N!NOne)
 ValidPriv(d) == ~N!NIsZero(d) /\ N!NLt(d, NM1)
 Pub(d) == Mul(d, G)
 
-\* one signing attempt with nonce candidate k (GM/T 0003.2 section 6.1, A3-A6)
+\* one signing attempt with nonce candidate k (GM/T 0003.2 section 6.1, A3-A6).
+\* AttemptX is the arithmetic after the point multiplication, for a given x1 = x([k]G); it is
+\* separate so that the same text can judge executions in which a verification hook substitutes
+\* x1 (values of x1 that no choice of k reaches, e.g. e + x1 >= 2n).
+AttemptX(d, e, k, x1) ==
+  LET r == N!NMod(N!NAdd(e, x1), Nn)
+  IN IF N!NIsZero(r) THEN [skip |-> TRUE, why |-> "r_zero"]
+     ELSE IF N!NEq(N!NAdd(r, k), Nn) THEN [skip |-> TRUE, why |-> "rk_n"]
+     ELSE LET dinv == N!NModInv(N!NAdd(d, N!NOne), Nn)
+              s == N!NModMul(dinv, N!NModSub(k, N!NModMul(r, d, Nn), Nn), Nn)
+          IN IF N!NIsZero(s) THEN [skip |-> TRUE, why |-> "s_zero"]
+             ELSE [skip |-> FALSE, why |-> "ok", r |-> r, s |-> s]
+KInRange(k) == ~N!NIsZero(k) /\ N!NLt(k, Nn)
 Attempt(d, e, k) ==
-  IF N!NIsZero(k) \/ ~N!NLt(k, Nn) THEN [skip |-> TRUE, why |-> "k_range"]
-  ELSE LET kg == Mul(k, G)
-           r == N!NMod(N!NAdd(e, kg[1]), Nn)
-       IN IF N!NIsZero(r) THEN [skip |-> TRUE, why |-> "r_zero"]
-          ELSE IF N!NEq(N!NAdd(r, k), Nn) THEN [skip |-> TRUE, why |-> "rk_n"]
-          ELSE LET dinv == N!NModInv(N!NAdd(d, N!NOne), Nn)
-                   s == N!NModMul(dinv, N!NModSub(k, N!NModMul(r, d, Nn), Nn), Nn)
-               IN IF N!NIsZero(s) THEN [skip |-> TRUE, why |-> "s_zero"]
-                  ELSE [skip |-> FALSE, why |-> "ok", r |-> r, s |-> s]
+  IF ~KInRange(k) THEN [skip |-> TRUE, why |-> "k_range"] ELSE AttemptX(d, e, k, Mul(k, G)[1])
+AttemptInjected(d, e, k, x1) ==
+  IF ~KInRange(k) THEN [skip |-> TRUE, why |-> "k_range"] ELSE AttemptX(d, e, k, x1)
 
 \* the signature for the first acceptable candidate of the stream ks
 RECURSIVE SignFrom(_, _, _, _)
